@@ -46,7 +46,7 @@ Proof.
   destruct ok; cbn [negb] in *; [| discriminate].
   assert (Hok' : hist_ok (tHist t')) by (rewrite Hh; now apply hist_recv_ok).
   assert (Hne' : ranges (tHist t') <> []) by (rewrite Hh; apply hist_recv_accept_nonempty; auto).
-  assert (Hdb' : rph_InvalidPacketNumber <= deletedBelow (tHist t')) by (rewrite Hh, hist_recv_db; assumption).
+  assert (Hdb' : rph_InvalidPacketNumber <= deletedBelow (tHist t')) by (rewrite Hh; pose proof (hist_recv_db_le (tHist (aTr a)) pn Hok); lia).
   set (lo' := if pn >=? aLargestObserved a then pn else aLargestObserved a) in *.
   set (lt' := if pn >=? aLargestObserved a then t else aLorTime a) in *.
   set (a2 := mkApp t' lt' lo' (aIgnoreBelow a) (aMaxAckDelay a) (aAckQueued a) (aCnt a + 1) (aAckAlarm a)) in *.
@@ -98,7 +98,7 @@ Lemma reachable_app_wf : forall ops, pn_nonneg ops -> app_wf (hApp (fst (run new
 Proof.
   intros ops Hnn. destruct (invL_run ops) as (HA & HL).
   destruct (HA 2%nat _ eq_refl) as (Hok & _).
-  destruct (invB_run ops) as (B1 & B2 & _).
+  destruct (invB_run ops) as (_ & B1 & B2 & _).
   split; [assumption | split].
   - destruct B2 as [B2 | [B2 _]]; unfold rph_InvalidPacketNumber in *; lia.
   - intros la Hla. destruct (HL la Hla) as ((lo & hi & Hwf) & Hs). split; [eauto |].
@@ -160,7 +160,7 @@ Proof.
   destruct ok; cbn [negb]; [| discriminate]. destruct ae; cbn [negb]; [| discriminate].
   assert (Hok' : hist_ok (tHist t')) by (rewrite Hh; now apply hist_recv_ok).
   assert (Hne' : ranges (tHist t') <> []) by (rewrite Hh; apply hist_recv_accept_nonempty; auto).
-  assert (Hdb' : rph_InvalidPacketNumber <= deletedBelow (tHist t')) by (rewrite Hh, hist_recv_db; assumption).
+  assert (Hdb' : rph_InvalidPacketNumber <= deletedBelow (tHist t')) by (rewrite Hh; pose proof (hist_recv_db_le (tHist (aTr a)) pn Hok); lia).
   match goal with |- context [isMissing ?x pn] => set (a2 := x) end.
   assert (Hboth : (exists b, isMissing a2 pn = Some b) /\ (exists b, hasNewMissingPackets a2 = Some b)).
   { destruct (tLastAck (aTr a)) as [la |] eqn:Hla.
